@@ -371,6 +371,30 @@ impl Prop for PRegex {
                 names.push(s);
             }
         }
+        // one case in ten: "anything, then this text" (.*TEXT) over paths with a newline in front of the text - whether
+        // the anything may contain the newline is the syntax's business
+        let (ast, pat, names) = if _idx % 10 == 4 {
+            let tail: Vec<u32> = (0..1 + rng.below(3)).map(|_| *rng.pick(&[97u32, 98, 95, 45])).collect();
+            let mut e = json!({"t": "c", "c": tail[tail.len() - 1]});
+            for c in tail[..tail.len() - 1].iter().rev() {
+                e = json!({"t": "cat", "a": {"t": "c", "c": c}, "b": e});
+            }
+            let ast = json!({"t": "cat", "a": {"t": "star", "a": {"t": "any"}}, "b": e});
+            let mut pat = vec![];
+            render(&ast, eff, &mut pat);
+            let mut names: Vec<Vec<u32>> = vec![];
+            for pre in [vec![], vec![120u32], vec![120, 10, 121], vec![10], vec![97, 98]] {
+                let mut n = pre.clone();
+                n.extend(&tail);
+                if !names.contains(&n) {
+                    names.push(n);
+                }
+            }
+            names.push(vec![122]);
+            (ast, pat, names)
+        } else {
+            (ast, pat, names)
+        };
         let words = if syn == "none" { json!([{"w": "RE"}]) } else { json!([{"w": "rt", "rt": syn}, {"w": "RE"}]) };
         let mut v = json!({"words": words, "ast": ast, "syn": eff, "pattern": pat, "icase": rng.chance(1, 4), "names": names, "rootslash": 0, "both": rng.chance(1, 3)});
         if rng.chance(1, 6) {
